@@ -105,6 +105,23 @@ impl Check for C06Noise {
         let token = prop_oneof![
             12 => vec(garbage_byte(), 1..4).prop_map(BytesS),
             1 => ("[a-z ]{0,6}", prop::sample::select(vec!["\\q", "\\x", "\\uZ", "\\u12", "\\ "]), "[a-z]{0,6}", prop::sample::select(vec!["\\q", "\\x", "\\uZ"])).prop_map(|(a, e1, b, e2)| BytesS(format!("\"{}{}\"{}{}", a, e1, b, e2).into_bytes())),
+            // the beginning of true / false / null followed by a byte that is neither the next
+            // letter nor the start of a value: a literal that is almost there is not a value
+            1 => (prop::sample::select(vec!["t", "tr", "tru", "f", "fa", "fal", "fals", "n", "nu", "nul"]), prop::sample::select(b"}],:.+".to_vec())).prop_map(|(p, b)| {
+                let mut v = p.as_bytes().to_vec();
+                v.push(b);
+                BytesS(v)
+            }),
+            // a complete quoted string whose content is not UTF-8: malformed as a whole, and
+            // the quote that closes it does not open anything
+            1 => ("[a-z]{0,5}", prop::sample::select(vec![&b"\xff"[..], &b"\xc3"[..], &b"\xe2\x82"[..], &b"\x80"[..], &b"\xf0\x9f\x98"[..], &b"\xc3\x28"[..]]), "[a-z]{0,5}").prop_map(|(a, bad, b)| {
+                let mut v = vec![b'"'];
+                v.extend_from_slice(a.as_bytes());
+                v.extend_from_slice(bad);
+                v.extend_from_slice(b.as_bytes());
+                v.push(b'"');
+                BytesS(v)
+            }),
         ];
         let gap = prop_oneof![
             30 => Just(Vec::<BytesS>::new()),
@@ -157,7 +174,9 @@ impl Check for C06Noise {
             .class(["pipe:none", "pipe:select", "pipe:filter", "pipe:select+index", "pipe:unique", "pipe:sort", "pipe:group", "pipe:split"][case.pipeline as usize])
             .class_if(case.only_objects, "only_objects_and_arrays")
             .class_if(case.noise.iter().any(|g| g.len() >= 33), "more_than_32_reports_in_a_row")
-            .class_if(case.noise.iter().flatten().any(|t| t.0.first() == Some(&b'"')), "broken_string_pair")
+            .class_if(case.noise.iter().flatten().any(|t| t.0.first() == Some(&b'"') && t.0.is_ascii()), "broken_string_pair")
+            .class_if(case.noise.iter().flatten().any(|t| t.0.first() == Some(&b'"') && !t.0.is_ascii()), "quoted_string_that_is_not_utf8")
+            .class_if(case.noise.iter().flatten().any(|t| matches!(t.0.first(), Some(b't') | Some(b'f') | Some(b'n'))), "almost_a_literal")
             .class_if(noisy_gaps.first() == Some(&0), "noise_at_start")
             .class_if(noisy_gaps.last() == Some(&case.values.len()), "noise_at_end")
             .class_if(case.noise.iter().flatten().any(|t| t.0.iter().any(|b| *b >= 0x80)), "non_utf8_noise")
@@ -262,7 +281,7 @@ impl Check for C06Noise {
 }
 
 pub fn run_all(ctx: &mut Ctx) {
-    ctx.rule = "0..12 generated values (independent spellings) with 0..3 whitespace-delimited garbage tokens at every gap, each token 1..3 bytes drawn from bytes that cannot start a JSON value (structural bytes, letters, C0 controls, 0x80-0xFF) or a pair of strings that die on a bad escape, one gap in fifty a long region of 35..120 tokens, optionally --only-objects-and-arrays, x 4 --on-error policies x 8 pipelines (none, select, filter, select+&index, unique, sort, group, split); oracle = differential against the noise-free run of the same pipeline + policy-specific placement of error: lines + removing one malformed region must remove at least one error: line; non-trivial = >= 2 values and a noisy gap strictly between two values".into();
+    ctx.rule = "0..12 generated values (independent spellings) with 0..3 whitespace-delimited garbage tokens at every gap, each token 1..3 bytes drawn from bytes that cannot start a JSON value (structural bytes, letters, C0 controls, 0x80-0xFF) or a pair of strings that die on a bad escape, or the beginning of true/false/null followed by a structural byte, or a complete quoted string that is not UTF-8, one gap in fifty a long region of 35..120 tokens, optionally --only-objects-and-arrays, x 4 --on-error policies x 8 pipelines (none, select, filter, select+&index, unique, sort, group, split); oracle = differential against the noise-free run of the same pipeline + policy-specific placement of error: lines + removing one malformed region must remove at least one error: line; non-trivial = >= 2 values and a noisy gap strictly between two values".into();
     ctx.assumptions = vec!["every error report is one line starting with `error:` (what lib.rs writes); rows of these pipelines never start with `error:` because they are JSON texts".into()];
     C06Noise.run(ctx);
 }
